@@ -140,7 +140,7 @@ class _KR:
 
 
 class FSteps:
-    _OS_NAMES = ('open', 'write', 'close', 'mkdir', 'replace', 'rename', 'unlink', 'remove', 'rmdir', 'fsync', 'fdatasync',
+    _OS_NAMES = ('open', 'write', 'read', 'close', 'mkdir', 'replace', 'rename', 'unlink', 'remove', 'rmdir', 'fsync', 'fdatasync',
                  'link', 'truncate', 'ftruncate', 'stat', 'lstat', 'fstat', 'scandir', 'listdir')
 
     def __init__(self, root, step, *, reads=True, torn=True, only_thread=None):
@@ -154,6 +154,7 @@ class FSteps:
         self.saved = None
         self.only_thread = only_thread
         self.count = 0
+        self.short_read_fn = None     # callable(path, nbytes) -> True: this raw os.read returns about half of what was asked
         self.short_write_fn = None    # callable(path, nbytes) -> True: this raw os.write writes only half of its data
 
     # -- plumbing
@@ -239,6 +240,16 @@ class FSteps:
                 fs._step('write-2nd-half', ent[0])
                 return half + r['write'](fd, data[half:])
             return r['write'](fd, data)
+
+        def k_read(fd, n):
+            ent = fs.fds.get(fd)
+            if ent is None or fs._busy() or not fs.reads:
+                return r['read'](fd, n)
+            fs._step('os-read', ent[0])
+            if n > 1 and fs.short_read_fn is not None and fs.short_read_fn(ent[0], n):
+                # a raw read may return less than asked for without being at the end of the file
+                return r['read'](fd, max(1, n // 2))
+            return r['read'](fd, n)
 
         def k_close(fd):
             fs.fds.pop(fd, None)
@@ -343,7 +354,7 @@ class FSteps:
                 return _KR(fs, f, p)
             return k_io_open
 
-        os.open, os.write, os.close = k_open, k_write, k_close
+        os.open, os.write, os.close, os.read = k_open, k_write, k_close, k_read
         os.mkdir = one_path('mkdir', 'mkdir')
         os.unlink = one_path('unlink', 'unlink')
         os.remove = one_path('remove', 'unlink')
